@@ -152,10 +152,9 @@ func reproRemoveOnly(e *env) (stillThere bool, err error) {
 // blob store only); txn 3 reads "k1" (fine), adds "b" - which sorts before "k1" and shifts the
 // node's slots - and reads "k1" again: the underlying GetCurrentValue returns empty chunks
 // without an error, so the entry decodes to nothing (EOF at value #0).
+//
+// Repaired in /repo by a fix: commit: always-on regression, fails if the defect returns.
 func TestC31_Known_refetch_after_slot_shift_returns_empty(t *testing.T) {
-	if !stats.Known(propID, slugRefetch) {
-		t.Skip("not listed")
-	}
 	rec := stats.For(propID)
 	two := func(n int) []value {
 		vs := []value{{Kind: kStr, Target: 20 + n, Seed: n}, {Kind: kStr, Target: 30 + n, Seed: n}}
@@ -181,9 +180,9 @@ func TestC31_Known_refetch_after_slot_shift_returns_empty(t *testing.T) {
 	if strings.Contains(err.Error(), "HARNESS-ERROR") || !strings.Contains(err.Error(), "txn 2 op 2 read(\"k1\")") {
 		t.Fatalf("unexpected outcome of the reproduction: %v", err)
 	}
-	what := stats.KnownWhat(propID, slugRefetch)
-	if what == "" {
-		what = slugRefetch
+	if !stats.Known(propID, slugRefetch) {
+		t.Fatalf("C31 violated (regression of %s): %v", slugRefetch, err)
 	}
+	what := stats.KnownWhat(propID, slugRefetch)
 	rec.KnownFinding(fmt.Sprintf("%s: read k1, add b, read k1 in one transaction: %v", what, err))
 }
